@@ -25,7 +25,7 @@ meta = {
            "unchanged and the changed worktree; VERIF_REPO=<worktree> ./check %s --dev --tier quick)" % (prop, src, prop),
     "check_exit": ev.get("check_rc"),
     "check_seconds": ev.get("check_s"),
-    "check_lines": [re.sub(r"/verif/work/[A-Z0-9]+_scratch/", "", l) for l in viol][:8],
+    "check_lines": [re.sub(r"/verif/work/[A-Za-z0-9_]+/", "", l) for l in viol][:8],
     "caught": bool(viol),
     "caught_with_failing_input": bool(concrete),
     "how": sys.argv[5] if len(sys.argv) > 5 else "",
